@@ -103,11 +103,11 @@ def swallowing_handlers(ctx: Ctx, fn: FuncInfo, node: ast.AST) -> List[ast.Excep
 
 
 def run(ctx: Ctx, rep: Report) -> None:
-    rep.rule("C09-R1", "with an auth key in the credentials, every accepting path passed a digest check whose failure raises", floor=3)
-    rep.rule("C09-R2", "the data returned derives from the message that was verified", floor=2)
-    rep.rule("C09-R3", "exact 12-octet digest comparison over the message with zeroed digest; arguments bound correctly", floor=8)
+    rep.rule("C09-R1", "with an auth key in the credentials, every accepting path passed a digest check whose failure raises", floor=2)
+    rep.rule("C09-R2", "the data returned derives from the message that was verified", floor=1)
+    rep.rule("C09-R3", "exact 12-octet digest comparison over the message with zeroed digest; arguments bound correctly", floor=7)
     rep.rule("C09-R4", "a foreign user name raises before anything is accepted", floor=1)
-    rep.rule("C09-R5", "every incoming v3 message is vetted by the USM instance of the message-processing model (never by a model the message names)", floor=3)
+    rep.rule("C09-R5", "every incoming v3 message is vetted by the USM instance of the message-processing model (never by a model the message names)", floor=2)
     rep.assumptions += [
         "HMAC-MD5-96 / HMAC-SHA-96 are unforgeable without the key (cryptographic strength is not analysed)",
         "atoms assumed on the analysed paths: credentials.auth is set, isinstance(credentials, V3)",
@@ -118,17 +118,37 @@ def run(ctx: Ctx, rep: Report) -> None:
     mdecode = own_method(ctx, v3mpm, "decode")
 
     # ---- the functions that call the auth plug-in's incoming check
-    verifiers: List[Tuple[FuncInfo, ast.Call]] = []
+    # direct call sites of the plug-in's check; a function that merely *returns* its result (a predicate wrapper such
+    # as _digest_matches) stands for the check at its own call sites
+    direct: List[Tuple[FuncInfo, ast.Call]] = []
     for fn in ctx.u.functions.values():
         if fn.module.external or not fn.module.name.startswith("puresnmp"):
             continue
         for call in calls_resolving_to(ctx, fn, AUTH_IN):
-            verifiers.append((fn, call))
+            direct.append((fn, call))
+    wrappers: Dict[str, Tuple[FuncInfo, ast.Call]] = {}
+    for fn, call in direct:
+        rets = [n for n in own_nodes(fn.node) if isinstance(n, ast.Return)]
+        fdefs = ctx.defs(fn)
+        if rets and all(r.value is not None and (r.value is call or (isinstance(r.value, ast.Name) and fdefs.single(r.value.id) is call)) for r in rets):
+            wrappers[fn.key] = (fn, call)
+    verifiers: List[Tuple[FuncInfo, ast.Call, Optional[Tuple[FuncInfo, ast.Call]]]] = []
+    for fn, call in direct:
+        if fn.key not in wrappers:
+            verifiers.append((fn, call, None))
+    for fn in ctx.u.functions.values():
+        if fn.module.external or not fn.module.name.startswith("puresnmp") or fn.key in wrappers:
+            continue
+        for node in own_nodes(fn.node):
+            if isinstance(node, ast.Call):
+                for callee in ctx.r.callees(fn, node):
+                    if isinstance(callee, FuncInfo) and callee.key in wrappers:
+                        verifiers.append((fn, node, wrappers[callee.key]))
     if not verifiers:
         rep.violated("C09-R1", proc.site(), "some function calls the auth plug-in's authenticate_incoming_message", "no call site found in the resolved program", key="no-incoming-auth-call")
         return
     rejecting: Set[str] = set()
-    for fn, call in verifiers:
+    for fn, call, inner in verifiers:
         defs = ctx.defs(fn)
         creds = cred_params(ctx, fn)
         site = fn.site(call)
@@ -152,7 +172,7 @@ def run(ctx: Ctx, rep: Report) -> None:
             rep.violated("C09-R1", fn.site(h), "no handler around the digest check swallows the refusal", "handler continues normally", key=f"{fn.key}|swallowed-refusal")
         if ok:
             rejecting.add(fn.key)
-        check_digest_args(ctx, rep, fn, call)
+        check_digest_args(ctx, rep, fn, call, inner)
 
     # ---- chain: mpm.decode -> process_incoming_message -> ... -> verifier
     def passes_rejecting(fn: FuncInfo, depth: int = 0) -> Optional[bool]:
@@ -257,13 +277,47 @@ def run(ctx: Ctx, rep: Report) -> None:
     check_hash_plugins(ctx, rep)
 
 
-def check_digest_args(ctx: Ctx, rep: Report, fn: FuncInfo, call: ast.Call) -> None:
-    """Arguments of authenticate_incoming_message at a call site."""
-    defs = ctx.defs(fn)
+def check_digest_args(ctx: Ctx, rep: Report, fn: FuncInfo, call: ast.Call, inner: Optional[Tuple[FuncInfo, ast.Call]] = None) -> None:
+    """
+    Arguments of authenticate_incoming_message at a call site.  With *inner* the plug-in is called inside a predicate
+    wrapper (inner = (wrapper, its plug-in call)) that *fn* calls at *call*: the wrapper's arguments are read in
+    terms of the caller's expressions.
+    """
+    from ..engine.exprs import clone
+
+    outer_defs = ctx.defs(fn)
     proto = ctx.fn(AUTH_IN)
-    bound = bind_call_args(call, proto.params)
     site = fn.site(call)
     creds = cred_params(ctx, fn)
+    if inner is None:
+
+        class _Defs:  # the caller's own view
+            @staticmethod
+            def expand(expr: ast.AST) -> ast.AST:
+                return outer_defs.expand(expr)
+
+        defs = _Defs()
+        bound = bind_call_args(call, proto.params)
+        arg_owner = fn
+    else:
+        wfn, wcall = inner
+        wdefs = ctx.defs(wfn)
+        passed = bind_call_args(call, wfn.params, skip_self=wfn.cls is not None)
+
+        class _Sub(ast.NodeTransformer):
+            def visit_Name(self, node: ast.Name) -> ast.AST:  # noqa: N802
+                if isinstance(node.ctx, ast.Load) and node.id in passed:
+                    return clone(outer_defs.expand(passed[node.id]))
+                return node
+
+        class _Defs:  # type: ignore[no-redef]
+            @staticmethod
+            def expand(expr: ast.AST) -> ast.AST:
+                return _Sub().visit(clone(wdefs.expand(expr)))
+
+        defs = _Defs()
+        bound = bind_call_args(wcall, proto.params)
+        arg_owner = wfn
     key = bound.get("auth_key")
     key = defs.expand(key) if key is not None else None
     rep.check(key is not None and norm(key) in [f"{c}.auth.key" for c in creds], "C09-R3", site, "auth key argument is the credentials' authentication key", f"{norm(key) if key is not None else None}", key=f"{fn.key}|auth-key-arg")
@@ -272,10 +326,10 @@ def check_digest_args(ctx: Ctx, rep: Report, fn: FuncInfo, call: ast.Call) -> No
     ok = False
     reset_fn = None
     if isinstance(data_exp, ast.Call) and isinstance(data_exp.func, ast.Name) and data_exp.func.id == "bytes" and data_exp.args:
-        inner = data_exp.args[0]
-        if isinstance(inner, ast.Call):
-            for callee in ctx.r.callees(fn, inner):
-                if isinstance(callee, FuncInfo) and inner.args and isinstance(inner.args[0], ast.Name) and inner.args[0].id in fn.params:
+        zeroed = data_exp.args[0]
+        if isinstance(zeroed, ast.Call):
+            for callee in ctx.r.callees(arg_owner, zeroed):
+                if isinstance(callee, FuncInfo) and zeroed.args and isinstance(zeroed.args[0], ast.Name) and zeroed.args[0].id in fn.params:
                     reset_fn = callee
                     ok = True
     rep.check(ok, "C09-R3", site, "the digest is computed over the serialisation of the received message passed through the digest-zeroing function", f"data = {norm(data_exp) if data_exp is not None else None}", key=f"{fn.key}|digest-data-arg")
